@@ -17,6 +17,12 @@ def optChars : Option (List Char) → Json
   | some s => ofChars s
   | none => Json.null
 
+def hexDigit (n : Nat) : Char := if n < 10 then Char.ofNat (48 + n) else Char.ofNat (87 + n)
+
+/-- bytes as lower-case hex text (what Python's `bytes.hex()` gives) -/
+def hexOf (bs : List UInt8) : String :=
+  String.ofList (bs.flatMap fun b => [hexDigit (b.toNat / 16), hexDigit (b.toNat % 16)])
+
 def handle : Handler := fun cmd j =>
   match cmd with
   | "c34.run" => do
@@ -36,6 +42,7 @@ def handle : Handler := fun cmd j =>
       let specRegions := (r.stmts.zip sels).filterMap fun (s, b) => if b = some true then some (s.start, s.stop) else none
       pure (Json.mkObj [("out", ofChars out), ("spec", ofChars spec),
         ("specsel_out", ofChars (Spec.removeRegions specRegions data)), ("pos", toJson r.pos),
+        ("bytes", Json.str (hexOf (writtenBytes data r))),
         ("windows", .arr (r.windows.map fun w => Json.arr #[toJson w.1, toJson w.2]).toArray),
         ("stmts", .arr ((r.stmts.zip sels).map fun (s, b) =>
           Json.arr #[toJson s.isFunc, toJson s.start, toJson s.stop, ofChars s.name, toJson s.filtered, optBool b]).toArray),
